@@ -1264,8 +1264,8 @@ func rangeIter(x value, t types.Type) iter {
 	panic(fmt.Sprintf("cannot range over %T", x))
 }
 
-// sstrIter ranges over a string with symbolic bytes. Symbolic bytes must be ASCII (one rune per byte);
-// a path on which one can be >= 0x80 is aborted as unsupported.
+// sstrIter ranges over a string with symbolic bytes: ASCII bytes are one rune each, other bytes are decoded as
+// unicode/utf8 does (decodeSymbolicRune).
 type sstrIter struct {
 	s sstr
 	i int
@@ -1301,13 +1301,102 @@ func (it *sstrIter) next() tuple {
 		}
 		panic(unsupported("range over a string mixing non-ASCII concrete and symbolic bytes"))
 	case *sym:
-		if !cur.cond(mkBool("(bvult " + c.e + " #x80)")) {
-			panic(unsupported("range over a string with a non-ASCII symbolic byte"))
+		if cur.cond(mkBool("(bvult " + c.e + " #x80)")) {
+			it.i++
+			return tuple{true, pos, &sym{e: "((_ zero_extend 24) " + c.e + ")", k: symBV, w: 32, gk: types.Int32}}
 		}
-		it.i++
-		return tuple{true, pos, &sym{e: "((_ zero_extend 24) " + c.e + ")", k: symBV, w: 32, gk: types.Int32}}
+		r, size := decodeSymbolicRune(it.s[pos:])
+		it.i += size
+		return tuple{true, pos, r}
 	}
 	panic("sstrIter")
+}
+
+// decodeSymbolicRune is utf8.DecodeRune for a byte sequence whose first byte is a term known to be >= 0x80: it
+// forks over the classes of lead bytes and over "is the next byte a continuation byte of the required range"
+// exactly as unicode/utf8 does (table first / acceptRanges), and returns the rune - a term over the bytes for a
+// well-formed sequence, the constant U+FFFD with size 1 for anything else.
+func decodeSymbolicRune(s sstr) (value, int) {
+	bv := func(v value) string {
+		switch b := v.(type) {
+		case uint8:
+			return bvConst(uint64(b), 8)
+		case *sym:
+			return b.e
+		}
+		panic(unsupported("range over a string with a non-byte element"))
+	}
+	in := func(e string, lo, hi uint64) bool {
+		return cur.cond(mkBool("(and (bvuge " + e + " " + bvConst(lo, 8) + ") (bvule " + e + " " + bvConst(hi, 8) + "))"))
+	}
+	ext := func(e string) string { return "((_ zero_extend 24) " + e + ")" }
+	bad := func() (value, int) { return int32(0xFFFD), 1 }
+	c0 := bv(s[0])
+	// lead byte classes: (first byte range, sequence length, range of the second byte)
+	type class struct {
+		lo, hi   uint64
+		n        int
+		lo2, hi2 uint64
+	}
+	classes := []class{{0xC2, 0xDF, 2, 0x80, 0xBF}, {0xE0, 0xE0, 3, 0xA0, 0xBF}, {0xE1, 0xEC, 3, 0x80, 0xBF}, {0xED, 0xED, 3, 0x80, 0x9F},
+		{0xEE, 0xEF, 3, 0x80, 0xBF}, {0xF0, 0xF0, 4, 0x90, 0xBF}, {0xF1, 0xF3, 4, 0x80, 0xBF}, {0xF4, 0xF4, 4, 0x80, 0x8F}}
+	for _, cl := range classes {
+		if !in(c0, cl.lo, cl.hi) {
+			continue
+		}
+		if len(s) < cl.n {
+			return bad()
+		}
+		c1 := bv(s[1])
+		if !in(c1, cl.lo2, cl.hi2) {
+			return bad()
+		}
+		switch cl.n {
+		case 2:
+			e := "(bvor (bvshl (bvand " + ext(c0) + " #x0000001f) #x00000006) (bvand " + ext(c1) + " #x0000003f))"
+			return &sym{e: e, k: symBV, w: 32, gk: types.Int32}, 2
+		case 3:
+			c2 := bv(s[2])
+			if !in(c2, 0x80, 0xBF) {
+				return bad()
+			}
+			e := "(bvor (bvshl (bvand " + ext(c0) + " #x0000000f) #x0000000c) (bvor (bvshl (bvand " + ext(c1) + " #x0000003f) #x00000006) (bvand " + ext(c2) + " #x0000003f)))"
+			return &sym{e: e, k: symBV, w: 32, gk: types.Int32}, 3
+		default:
+			c2, c3 := bv(s[2]), bv(s[3])
+			if !in(c2, 0x80, 0xBF) || !in(c3, 0x80, 0xBF) {
+				return bad()
+			}
+			e := "(bvor (bvshl (bvand " + ext(c0) + " #x00000007) #x00000012) (bvor (bvshl (bvand " + ext(c1) + " #x0000003f) #x0000000c) (bvor (bvshl (bvand " + ext(c2) + " #x0000003f) #x00000006) (bvand " + ext(c3) + " #x0000003f))))"
+			return &sym{e: e, k: symBV, w: 32, gk: types.Int32}, 4
+		}
+	}
+	return bad() // 0x80..0xC1 and 0xF5..0xFF never start a sequence
+}
+
+// encodeSymbolicRune is utf8.AppendRune for a rune term: forks over the encoded length, bytes are terms; a
+// surrogate or a value beyond U+10FFFF is encoded as U+FFFD.
+func encodeSymbolicRune(r *sym) sstr {
+	if r.w != 32 {
+		panic(unsupported("a rune term that is not 32 bits wide"))
+	}
+	lt := func(v uint64) bool { return cur.cond(mkBool("(bvult " + r.e + " " + bvConst(v, 32) + ")")) }
+	b := func(shift uint64, mask, or uint64) value {
+		return &sym{e: "(bvor ((_ extract 7 0) (bvand (bvlshr " + r.e + " " + bvConst(shift, 32) + ") " + bvConst(mask, 32) + ")) " + bvConst(or, 8) + ")", k: symBV, w: 8, gk: types.Uint8}
+	}
+	switch {
+	case lt(0x80):
+		return sstr{b(0, 0x7f, 0)}
+	case lt(0x800):
+		return sstr{b(6, 0x1f, 0xC0), b(0, 0x3f, 0x80)}
+	case cur.cond(mkBool("(and (bvuge " + r.e + " #x0000d800) (bvule " + r.e + " #x0000dfff))")):
+		return sstr{uint8(0xEF), uint8(0xBF), uint8(0xBD)}
+	case lt(0x10000):
+		return sstr{b(12, 0x0f, 0xE0), b(6, 0x3f, 0x80), b(0, 0x3f, 0x80)}
+	case lt(0x110000):
+		return sstr{b(18, 0x07, 0xF0), b(12, 0x3f, 0x80), b(6, 0x3f, 0x80), b(0, 0x3f, 0x80)}
+	}
+	return sstr{uint8(0xEF), uint8(0xBF), uint8(0xBD)}
 }
 
 // widen widens a basic typed value x to the widest type of its
